@@ -8,6 +8,8 @@
  *             "." or nothing = a task without data; a task may name one datum several times.
  *             A task prefixed by ">" is inserted by the body of the closest preceding
  *             task that is not prefixed (nested insertion).
+ *             A field "!" is not a task: the inserting thread calls parsec_taskpool_wait there
+ *             (everything inserted so far completes) and goes on inserting.
  *   sched: scheduler component (--mca mca_sched), "default" = none given
  *   window/threshold: values of --mca dtd_window_size / dtd_threshold_size (window 0 = defaults)
  *   spin: seed of the per-task busy wait (0 = no wait)
@@ -51,7 +53,7 @@
 #define MAXF 8
 #define PMOD 1000003u
 
-typedef struct { int nacc; int d[MAXF]; char m[MAXF]; int nested; int nchild; } task_t;
+typedef struct { int nacc; int d[MAXF]; char m[MAXF]; int nested; int nchild; int wait_before; } task_t;
 typedef struct {
     int ndata, threads, window, threshold, spin, flags, ntasks;
     char sched[32];
@@ -178,12 +180,18 @@ static int parse_case(const char *line, case_t *c) {
     if (sscanf(l, "dtd %d %d %31s %d %d %d %d", &c->ndata, &c->threads, c->sched, &c->window, &c->threshold,
                &c->spin, &c->flags) != 7) return 0;
     if (c->ndata < 1 || c->ndata > MAXD || c->threads < 1 || c->threads > 64 || c->window < 0 || c->threshold < 0) return 0;
-    char *s = bar + 1; int last_top = -1;
+    char *s = bar + 1; int last_top = -1, barrier = 0;
     for (;;) {
         while (*s == ' ') s++;
         if (*s == 0) break;
+        if (*s == '!') {                                   /* wait point */
+            s++; while (*s == ' ') s++;
+            if (*s == ';') s++; else if (*s) return 0;
+            barrier = 1; continue;
+        }
         if (c->ntasks >= MAXT) return 0;
         task_t *t = &c->t[c->ntasks];
+        t->wait_before = barrier; barrier = 0;
         if (*s == '>') { s++; t->nested = 1; if (last_top < 0) return 0; c->t[last_top].nchild++; }
         else last_top = c->ntasks;
         while (*s && *s != ';') {
@@ -256,6 +264,10 @@ static void run_case(FILE *out) {
 
     int has_nested = 0;
     for (int i = 0; i < C.ntasks; i++) {
+        if (C.t[i].wait_before && !(C.flags & 2)) {
+            rc = parsec_taskpool_wait(g_tp);
+            if (rc < 0) { fprintf(out, "<taskpool_wait rc=%d>\n", rc); return; }
+        }
         if (!C.t[i].nested) insert_one(i); else has_nested = 1;
     }
     parsec_mfence();
@@ -304,8 +316,12 @@ static char **lines; static char **result; static int ncases;
 
 /* run cases idx[0..n) (same configuration) in one worker; returns the number of cases
  * consumed (finished or lost) */
+static int nhangs;
 static int run_group(const int *idx, int n, int tmo_ms) {
     int pfd[2];
+    /* after a few hangs every further one is given less time: a broken runtime must not
+     * stretch the run to (number of cases) x (time-out) */
+    if (nhangs >= 3) tmo_ms = tmo_ms / 4 > 3000 ? tmo_ms / 4 : (tmo_ms < 3000 ? tmo_ms : 3000);
     if (pipe(pfd)) { result[idx[0]] = strdup("<pipe failed>"); return 1; }
     fflush(stdout); fflush(stderr);
     pid_t pid = fork();
@@ -314,6 +330,7 @@ static int run_group(const int *idx, int n, int tmo_ms) {
         FILE *out = fdopen(pfd[1], "w");
         parse_case(lines[idx[0]], &C);
         if (!worker_init(&C)) { fprintf(out, "<parsec_init failed>\n"); fflush(out); _exit(3); }
+        fprintf(out, "#ready\n"); fflush(out);             /* start-up is not charged to the first case */
         for (int k = 0; k < n; k++) {
             parse_case(lines[idx[k]], &C);
             run_case(out);
@@ -323,13 +340,14 @@ static int run_group(const int *idx, int n, int tmo_ms) {
         _exit(0);
     }
     close(pfd[1]);
-    static char buf[1 << 20]; size_t len = 0; int done = 0, timed_out = 0;
+    static char buf[1 << 20]; size_t len = 0; int done = 0, timed_out = 0, ready = 0;
     struct timespec t0; clock_gettime(CLOCK_MONOTONIC, &t0);
     while (done < n) {
         long el = usec_since(&t0) / 1000;
-        if (el >= tmo_ms) { timed_out = 1; break; }
+        long lim = ready ? tmo_ms : (tmo_ms > 90000 ? tmo_ms : 90000);   /* MPI_Init + parsec_init can be slow */
+        if (el >= lim) { timed_out = 1; break; }
         struct pollfd pf = { pfd[0], POLLIN, 0 };
-        int pr = poll(&pf, 1, (int)(tmo_ms - el));
+        int pr = poll(&pf, 1, (int)(lim - el));
         if (pr == 0) { timed_out = 1; break; }
         if (pr < 0) continue;
         ssize_t k = read(pfd[0], buf + len, sizeof(buf) - 1 - len);
@@ -338,7 +356,7 @@ static int run_group(const int *idx, int n, int tmo_ms) {
         char *nl;
         while (done < n && (nl = memchr(buf, '\n', len))) {
             *nl = 0;
-            result[idx[done++]] = strdup(buf);
+            if (buf[0] == '#') ready = 1; else result[idx[done++]] = strdup(buf);
             size_t used = (size_t)(nl - buf) + 1;
             memmove(buf, nl + 1, len - used); len -= used; buf[len] = 0;
             clock_gettime(CLOCK_MONOTONIC, &t0);            /* the time-out is per case */
@@ -348,7 +366,7 @@ static int run_group(const int *idx, int n, int tmo_ms) {
     int st = 0;
     if (done < n) {
         char msg[128];
-        if (timed_out) { kill(pid, SIGKILL); waitpid(pid, &st, 0); snprintf(msg, sizeof msg, "<hang: no completion within %d ms>", tmo_ms); }
+        if (timed_out) { nhangs++; kill(pid, SIGKILL); waitpid(pid, &st, 0); snprintf(msg, sizeof msg, "<hang: no completion within %d ms>", tmo_ms); }
         else { waitpid(pid, &st, 0);
                if (WIFSIGNALED(st)) snprintf(msg, sizeof msg, "<crash: signal %d>", WTERMSIG(st));
                else snprintf(msg, sizeof msg, "<no observation: exit %d>", WEXITSTATUS(st)); }
